@@ -77,6 +77,12 @@ def skeletons(tier):
         "funcs": [mkfunc("R", calls=[call("R", "rec"), call("D", "rec")], rich=False), mkfunc("D", calls=[call("R", "rec"), call("P", "rec")], rich=False),
                   mkfunc("P", kind="plain", calls=[call("D", "rec")], rich=False)],
         "vars": {}}))
+    # sibling helpers that share a qualified name (closures made by a factory called _mk): each of them is part of the version
+    sq = {"funcs": [mkfunc("R", calls=[call("D"), call("D2"), call("D3")], rich=False), mkfunc("D", kind="plain", reads=["G"], rich=False),
+                    mkfunc("D2", kind="plain", rich=False), mkfunc("D3", kind="plain", calls=[call("D2")], rich=False)], "vars": {"G": 5}}
+    for f_ in sq["funcs"][1:]:
+        f_["as_closure"] = True
+    progs.append(("same-qualname-helpers", sq))
     # several tracked variables holding equal values: an edit may give one the value another one has (or had)
     progs.append(("equal-valued-vars", {
         "funcs": [mkfunc("R", calls=[call("D")], reads=["V1", "V2", "V3"], rich=False),
